@@ -9,7 +9,57 @@ import (
 
 // ---------- C03: parallel gateway N x M ----------
 
+// genC03Burst: R tokens traverse the N x M gateway at the same time (R requests queued on every
+// upstream task). The answer plan works in rounds (the r-th request of every upstream task before any
+// (r+1)-th), so each activation receives exactly one token per incoming flow, but activations follow
+// each other without any pause.
+func genC03Burst(d *Draw) Case {
+	defs := &Definitions{}
+	g := &Graph{ID: "P1", Executable: true}
+	defs.Procs = []*Graph{g}
+	n := 1 + d.N(3)
+	m := 1 + d.N(3)
+	rr := 2 + d.N(2)
+	mk := func(id string) *Node {
+		return g.addNode(&Node{ID: id, Kind: "task", Results: []string{"r_" + id}})
+	}
+	g.addNode(&Node{ID: "Start", Kind: "start"})
+	g.addNode(&Node{ID: "AF", Kind: "and"})
+	g.connect(defs, "Start", "AF", nil, -1)
+	g.addNode(&Node{ID: "XM", Kind: "xor"})
+	for i := 0; i < rr; i++ {
+		g.connect(defs, "AF", "XM", nil, -1)
+	}
+	g.addNode(&Node{ID: "F", Kind: "and"})
+	g.connect(defs, "XM", "F", nil, -1)
+	g.addNode(&Node{ID: "G", Kind: "and"})
+	for i := 1; i <= n; i++ {
+		u := mk(fmt.Sprintf("U%d", i))
+		g.connect(defs, "F", u.ID, nil, -1)
+		g.connect(defs, u.ID, "G", nil, -1)
+	}
+	for j := 1; j <= m; j++ {
+		dn := mk(fmt.Sprintf("D%d", j))
+		g.connect(defs, "G", dn.ID, nil, -1)
+		e := g.addNode(&Node{ID: fmt.Sprintf("E%d", j), Kind: "end"})
+		g.connect(defs, dn.ID, e.ID, nil, -1)
+	}
+	g.index()
+	prog := &Program{Defs: defs, Vars: map[string]any{}, Desc: fmt.Sprintf("parallel %dx%d burst of %d overlapping activations", n, m, rr)}
+	c := &ProcCase{Prog: prog, Buf: d.N(17), Hold: 1, Rounds: true}
+	c.Picks = drawPicks(d, 40)
+	if len(c.Picks) == 0 {
+		c.Picks = []int{1}
+	}
+	c.Picks[0] |= 1 // hold once at the start so that every upstream request is pending
+	c.Meta = map[string]int{"n": n, "m": m, "acts": rr, "burst": 1}
+	return c
+}
+
 func genC03(d *Draw) Case {
+	if d.N(3) == 2 {
+		return genC03Burst(d)
+	}
 	defs := &Definitions{}
 	g := &Graph{ID: "P1", Executable: true}
 	defs.Procs = []*Graph{g}
@@ -112,6 +162,7 @@ func checkC03(cc Case, r *simrt.Result) *Outcome {
 	o.Viol = vl.v
 	o.Nontrivial = r.Switches > 0 && (n > 1 || m > 1)
 	probe(o, "reactivated", acts > 1)
+	probe(o, "overlapping-activations", c.Meta["burst"] == 1)
 	probe(o, "surplus-consumed", completions > 0)
 	probe(o, "fanout-gt-fanin", m > n)
 	o.Sample = map[string]any{"program": c.Prog.Desc, "buf": c.Buf, "hold": c.Hold, "answer_order": answerOrder(c.env)}
@@ -362,4 +413,100 @@ func init() {
 	Props["C03"] = &Scenario{Gen: genC03, Check: checkC03}
 	Props["C04"] = &Scenario{Gen: genC04, Check: checkC04}
 	Props["C05"] = &Scenario{Gen: genC05, Check: checkC05}
+}
+
+// ---------- C12: embedded sub-process behaves like its content inlined ----------
+
+// TwinCase runs the wrapped program and its inlined twin one after the other in the same simulation.
+type TwinCase struct {
+	Wrapped *ProcCase `json:"wrapped"`
+	Flat    *ProcCase `json:"flat"`
+}
+
+func (t *TwinCase) Prepare() error {
+	if err := t.Wrapped.Prepare(); err != nil {
+		return err
+	}
+	return t.Flat.Prepare()
+}
+func (t *TwinCase) Env() *Env { return t.Wrapped.env }
+func (t *TwinCase) Main() {
+	t.Wrapped.Main()
+	t.Flat.Main()
+}
+
+func genC12(d *Draw) Case {
+	opts := ProgOpts{Kinds: []string{"seq", "xor", "and", "or", "loop", "condtask"}, MaxDepth: 1 + d.N(2), MaxTasks: 3 + d.N(5), OrEarlyEnd: true, Wrap: true}
+	var kinds []string
+	for _, k := range opts.Kinds {
+		if d.N(3) != 0 {
+			kinds = append(kinds, k)
+		}
+	}
+	opts.Kinds = kinds
+	if d.N(4) == 3 {
+		opts.SubInLoop = true
+	}
+	// both programs are generated from the same draws
+	rec := &simrt.RecTape{}
+	*rec = *(d.T.(*simrt.RecTape))
+	start := len(rec.Rec)
+	prog := GenProgram(d, opts)
+	used := d.T.(*simrt.RecTape).Rec[start:]
+	fopts := opts
+	fopts.Flatten = true
+	flat := GenProgram(&Draw{T: simrt.NewReplayTape(append([]int{}, used...))}, fopts)
+	buf, hold := d.N(17), d.N(3)
+	picks := drawPicks(d, 48)
+	w := &ProcCase{Prog: prog, Buf: buf, Hold: hold, Picks: picks}
+	f := &ProcCase{Prog: flat, Buf: buf, Hold: hold, Picks: picks}
+	return &TwinCase{Wrapped: w, Flat: f}
+}
+
+func checkC12(cc Case, r *simrt.Result) *Outcome {
+	t := cc.(*TwinCase)
+	o := &Outcome{}
+	var vl vlist
+	genericRunViolations("C12", r, &vl)
+	tw := CheckTokenGame("C12", t.Wrapped.Prog, t.Wrapped.env.L.E)
+	vl.v = append(vl.v, tw.Viol...)
+	tf := CheckTokenGame("C12flat", t.Flat.Prog, t.Flat.env.L.E)
+	if len(tf.Viol) == 0 && len(tw.Viol) == 0 {
+		// differential: same multiset of requests, same completion, same variables
+		keys := map[string]bool{}
+		for k := range tw.Requests {
+			keys[k] = true
+		}
+		for k := range tf.Requests {
+			keys[k] = true
+		}
+		for k := range keys {
+			if tw.Requests[k] != tf.Requests[k] {
+				vl.add("C12/differs-from-inlined", "activity %s requested %d time(s) with sub-processes, %d time(s) inlined", k, tw.Requests[k], tf.Requests[k])
+			}
+		}
+		if tw.Complete != tf.Complete {
+			vl.add("C12/differs-from-inlined", "completion with sub-processes=%v, inlined=%v", tw.Complete, tf.Complete)
+		}
+	}
+	for _, p := range r.Panics {
+		vl.add("C12/panic", "%s", p)
+	}
+	o.Viol = vl.v
+	o.Tags = t.Wrapped.Prog.Tags
+	if len(tf.Viol) > 0 {
+		// the inlined twin itself misbehaves: not a sub-process matter, the run decides nothing for C12
+		o.Viol = nil
+		o.Tags = append(o.Tags, "twin-failed")
+	}
+	o.Nontrivial = r.Switches > 0 && t.Wrapped.Prog.Wrapped > 0
+	probe(o, "nesting>=2", t.Wrapped.Prog.Wrapped >= 2)
+	probe(o, "sub-inside-parallel", strings.Contains(t.Wrapped.Prog.Desc, "and[") && t.Wrapped.Prog.Wrapped > 0)
+	probe(o, "twin-failed", len(tf.Viol) > 0)
+	o.Sample = map[string]any{"program": t.Wrapped.Prog.Desc, "inlined": t.Flat.Prog.Desc, "vars": t.Wrapped.Prog.Vars, "requests": tw.Requests}
+	return o
+}
+
+func init() {
+	Props["C12"] = &Scenario{Gen: genC12, Check: checkC12, MaxSteps: 120000}
 }
